@@ -148,7 +148,11 @@ def cross_validate(chk, per_schema):
         except D.Unencodable:
             chk.tally('xval_skipped', 'unencodable')
             continue
-        lines.append(json.dumps({'s': name, 'd': enc}))
+        line = json.dumps({'s': name, 'd': enc})
+        if len(line) > 60000:      # the model's matcher is quadratic in the worst case; very long strings only go
+            chk.tally('xval_skipped', 'too-long')   # through the real pipeline (stage 3)
+            continue
+        lines.append(line)
         kept.append((name, schema, data, body, kind))
     # regexes and the uuid checker on exotic strings
     import placement.schemas.common as common
@@ -198,3 +202,1109 @@ def cross_validate(chk, per_schema):
         chk.sample({'stage': 'cross-validation', 'schema': kept[0][0], 'document': D.dumps(kept[0][2]),
                     'mutation': kept[0][4], 'lean': answers[0], 'python': py_verdict(*kept[0][:4])})
     return len(kept) + len(extra)
+
+
+# =============================================================================== stage 3: states
+
+def _u(prefix, i):
+    return '%s%07d-0000-0000-0000-000000000000' % (prefix, i)
+
+
+RP = [_u('0', i) for i in range(1, 10)]
+CONS = [_u('c', i) for i in range(1, 6)]
+AGG = [_u('a', i) for i in range(1, 4)]
+UNKNOWN_UUID = '99999999-9999-9999-9999-999999999999'
+SHARE = 'MISC_SHARES_VIA_AGGREGATE'
+
+
+def _inv(total, **kw):
+    d = {'total': total}
+    d.update(kw)
+    return d
+
+
+def _alloc38(consumer_gen, allocs, ctype='INSTANCE', project='p1', user='u1'):
+    return {'allocations': {rp: {'resources': res} for rp, res in allocs.items()}, 'project_id': project,
+            'user_id': user, 'consumer_generation': consumer_gen, 'consumer_type': ctype}
+
+
+# Each state is a list of API calls (method, path, body, version); every call must succeed (2xx).
+STATES = {
+    'empty': [],
+    'basic': [
+        ('POST', '/resource_classes', {'name': 'CUSTOM_RC1'}, '1.39'),
+        ('PUT', '/traits/CUSTOM_T1', None, '1.39'),
+        ('PUT', '/traits/CUSTOM_T2', None, '1.39'),
+        ('POST', '/resource_providers', {'name': 'rp1', 'uuid': RP[0]}, '1.39'),
+        ('POST', '/resource_providers', {'name': 'rp2', 'uuid': RP[1]}, '1.39'),
+        ('PUT', '/resource_providers/%s/inventories' % RP[0], {'resource_provider_generation': 0, 'inventories': {
+            'VCPU': _inv(8, allocation_ratio=2.0), 'MEMORY_MB': _inv(4096, reserved=512, step_size=64),
+            'DISK_GB': _inv(100, max_unit=50), 'CUSTOM_RC1': _inv(4)}}, '1.39'),
+        ('PUT', '/resource_providers/%s/inventories' % RP[1], {'resource_provider_generation': 0, 'inventories': {
+            'VCPU': _inv(4)}}, '1.39'),
+        ('PUT', '/resource_providers/%s/traits' % RP[0], {'resource_provider_generation': 1,
+                                                        'traits': ['CUSTOM_T1', 'HW_CPU_X86_AVX']}, '1.39'),
+        ('PUT', '/resource_providers/%s/aggregates' % RP[0], {'resource_provider_generation': 2,
+                                                            'aggregates': [AGG[0], AGG[1]]}, '1.39'),
+        ('PUT', '/allocations/%s' % CONS[0], _alloc38(None, {RP[0]: {'VCPU': 2, 'MEMORY_MB': 128, 'CUSTOM_RC1': 1}}), '1.39'),
+        ('PUT', '/allocations/%s' % CONS[1], _alloc38(None, {RP[0]: {'VCPU': 1}, RP[1]: {'VCPU': 1}}, 'MIGRATION', 'p2', 'u2'), '1.39'),
+    ],
+    # nested tree with a sharing provider inside another tree, a sharing provider without aggregate,
+    # reserved = total, allocation_ratio 0.0 and a tiny ratio
+    'exotic': [
+        ('PUT', '/traits/CUSTOM_T1', None, '1.39'),
+        ('POST', '/resource_classes', {'name': 'CUSTOM_RC1'}, '1.39'),
+        ('POST', '/resource_providers', {'name': 'root', 'uuid': RP[0]}, '1.39'),
+        ('POST', '/resource_providers', {'name': 'child', 'uuid': RP[1], 'parent_provider_uuid': RP[0]}, '1.39'),
+        ('POST', '/resource_providers', {'name': 'grandchild', 'uuid': RP[2], 'parent_provider_uuid': RP[1]}, '1.39'),
+        ('POST', '/resource_providers', {'name': 'root2', 'uuid': RP[3]}, '1.39'),
+        ('POST', '/resource_providers', {'name': 'nested-sharing', 'uuid': RP[4], 'parent_provider_uuid': RP[3]}, '1.39'),
+        ('POST', '/resource_providers', {'name': 'lonely-sharing', 'uuid': RP[5]}, '1.39'),
+        ('POST', '/resource_providers', {'name': 'zero', 'uuid': RP[6]}, '1.39'),
+        ('PUT', '/resource_providers/%s/inventories' % RP[0], {'resource_provider_generation': 0, 'inventories': {
+            'VCPU': _inv(16, allocation_ratio=16.0), 'MEMORY_MB': _inv(2048, reserved=2048)}}, '1.39'),
+        ('PUT', '/resource_providers/%s/inventories' % RP[1], {'resource_provider_generation': 0, 'inventories': {
+            'SRIOV_NET_VF': _inv(8, min_unit=2, max_unit=4, step_size=2)}}, '1.39'),
+        ('PUT', '/resource_providers/%s/inventories' % RP[2], {'resource_provider_generation': 0, 'inventories': {
+            'CUSTOM_RC1': _inv(2147483647, allocation_ratio=0.001)}}, '1.39'),
+        ('PUT', '/resource_providers/%s/inventories' % RP[4], {'resource_provider_generation': 0, 'inventories': {
+            'DISK_GB': _inv(1000, reserved=100)}}, '1.39'),
+        ('PUT', '/resource_providers/%s/inventories' % RP[5], {'resource_provider_generation': 0, 'inventories': {
+            'DISK_GB': _inv(500)}}, '1.39'),
+        ('PUT', '/resource_providers/%s/inventories' % RP[6], {'resource_provider_generation': 0, 'inventories': {
+            'VCPU': _inv(4, allocation_ratio=0.0)}}, '1.39'),
+        ('PUT', '/resource_providers/%s/traits' % RP[4], {'resource_provider_generation': 1, 'traits': [SHARE]}, '1.39'),
+        ('PUT', '/resource_providers/%s/traits' % RP[5], {'resource_provider_generation': 1, 'traits': [SHARE, 'CUSTOM_T1']}, '1.39'),
+        ('PUT', '/resource_providers/%s/aggregates' % RP[4], {'resource_provider_generation': 2, 'aggregates': [AGG[0]]}, '1.39'),
+        ('PUT', '/resource_providers/%s/aggregates' % RP[0], {'resource_provider_generation': 1, 'aggregates': [AGG[0]]}, '1.39'),
+        ('PUT', '/allocations/%s' % CONS[0], _alloc38(None, {RP[0]: {'VCPU': 4}, RP[1]: {'SRIOV_NET_VF': 2},
+                                                          RP[4]: {'DISK_GB': 10}}), '1.39'),
+        ('PUT', '/allocations/%s' % CONS[1], _alloc38(None, {RP[2]: {'CUSTOM_RC1': 1}}), '1.39'),
+    ],
+    # everything allocated to the brim
+    'full': [
+        ('POST', '/resource_providers', {'name': 'full', 'uuid': RP[0]}, '1.39'),
+        ('PUT', '/resource_providers/%s/inventories' % RP[0], {'resource_provider_generation': 0, 'inventories': {
+            'VCPU': _inv(2), 'MEMORY_MB': _inv(64, min_unit=64, max_unit=64, step_size=64)}}, '1.39'),
+        ('PUT', '/allocations/%s' % CONS[0], _alloc38(None, {RP[0]: {'VCPU': 2, 'MEMORY_MB': 64}}), '1.39'),
+        ('PUT', '/traits/CUSTOM_FULL', None, '1.39'),
+    ],
+}
+
+
+def build_state(app, name):
+    app.reset()
+    for (m, p, b, v) in STATES[name]:
+        r = app.call(m, p, b, version=v)
+        if r.status >= 300:
+            raise RuntimeError('state %s: %s %s -> %s %s' % (name, m, p, r.status, r.json))
+    return app.snapshot()
+
+
+class View(object):
+    """what the request generator reads off the current tables"""
+
+    def __init__(self, dump):
+        self.rps = sorted(dump['rps'])
+        self.gen = {u: r['gen'] for u, r in dump['rps'].items()}
+        self.parent = {u: r['parent'] for u, r in dump['rps'].items()}
+        self.invs = {}
+        for row in dump['invs']:
+            self.invs.setdefault(row[0], []).append(row[1])
+        self.consumers = dict((c, v['gen']) for c, v in dump['consumers'].items())
+        self.custom_rcs = [n for n, _ in dump['custom_rcs']]
+        self.custom_traits = list(dump['custom_traits'])
+        self.aggs = list(dump['aggs'])
+
+
+# =============================================================================== stage 3: request grammar
+
+ALL_METHODS = ['GET', 'POST', 'PUT', 'DELETE', 'PATCH', 'HEAD', 'OPTIONS', 'FOO']
+STD_RCS = ['VCPU', 'MEMORY_MB', 'DISK_GB', 'SRIOV_NET_VF', 'PCI_DEVICE']
+STD_TRAITS = ['HW_CPU_X86_AVX', 'HW_CPU_X86_SSE', SHARE, 'STORAGE_DISK_SSD']
+
+
+def routes():
+    from placement import handler
+    return {r: sorted(ms) for r, ms in handler.ROUTE_DECLARATIONS.items()}
+
+
+_MAP = None
+
+
+def schema_map():
+    """{handler: [(kind, lo, hi, schema name, schema dict)]} from the translator (the same rows as Gen.Schemas.handlerSchemas)"""
+    global _MAP
+    if _MAP is None:
+        from harness.extractors import schemas as X
+        lst, ids = X.collect_schemas()
+        byname = {'%s.%s' % (m, n): d for (m, n, d) in lst}
+        rows, _, _ = X.handler_schema_map(ids)
+        rh = {(r, m): '%s.%s' % (mn, fn) for (r, m, mn, fn) in X.route_handlers()}
+        out = {}
+        for (h, kind, lo, hi, sn) in rows:
+            out.setdefault(h, []).append((kind, lo, hi, sn, byname[sn]))
+        _MAP = (out, rh)
+    return _MAP
+
+
+def schema_for(route, method, kind, version):
+    out, rh = schema_map()
+    h = rh.get((route, method))
+    for (k, lo, hi, sn, d) in out.get(h, []):
+        if k == kind and lo <= version <= hi:
+            return sn, d
+    return None, None
+
+
+class StateHints(D.Hints):
+    """make type-directed documents refer to the current state"""
+
+    def __init__(self, view, route, method, path_uuid, rng):
+        self.v, self.route, self.method, self.path_uuid = view, route, method, path_uuid
+        self.n = rng.randint(0, 10 ** 6)
+
+    def _rp(self, rng):
+        return rng.choice(self.v.rps) if self.v.rps and rng.random() < 0.9 else rng.choice([UNKNOWN_UUID, RP[8]])
+
+    def key(self, path, pattern, rng):
+        if '0-9a-fA-F' in pattern:      # uuid-keyed objects
+            if self.route == '/allocations' and len(path) == 0:
+                return rng.choice(CONS)
+            if self.route == '/reshaper' and path == ('allocations',):
+                return rng.choice(CONS)
+            return self._rp(rng)
+        if pattern == '^[A-Z0-9_]+$':
+            pool = STD_RCS[:3] + self.v.custom_rcs
+            if self.path_uuid in self.v.invs and rng.random() < 0.7:
+                pool = self.v.invs[self.path_uuid]
+            for p in path:
+                if p in self.v.invs and rng.random() < 0.8:
+                    pool = self.v.invs[p]
+            return rng.choice(pool)
+        return None
+
+    def integer(self, path, schema, rng):
+        last = path[-1] if path else None
+        if last == 'resource_provider_generation':
+            u = self.path_uuid
+            for p in path:
+                if p in self.v.gen:
+                    u = p
+            g = self.v.gen.get(u, 0)
+            return g if rng.random() < 0.85 else g + rng.choice([1, -1, 7])
+        if last == 'generation':
+            u = path[-2] if len(path) > 1 else None
+            return self.v.gen.get(u, 0)
+        if last == 'consumer_generation':
+            return None
+        if last == 'total':
+            return rng.choice([1, 4, 8, 100, 2147483647])
+        if last in ('reserved',):
+            return rng.choice([0, 0, 1, 4])
+        if last in ('min_unit', 'step_size'):
+            return rng.choice([1, 1, 2])
+        if last == 'max_unit':
+            return rng.choice([1, 4, 2147483647])
+        if len(path) >= 2 and path[-2] == 'resources':
+            return rng.choice([1, 1, 2, 64])
+        return None
+
+    def value(self, path, schema, rng):
+        last = path[-1] if path else None
+        if last == 'consumer_generation':
+            c = None
+            for p in path:
+                if p in self.v.consumers:
+                    c = p
+            if c is None and self.route == '/allocations/{consumer_uuid}':
+                c = self.path_uuid
+            g = self.v.consumers.get(c)
+            return (True, g if rng.random() < 0.85 else rng.choice([None, 0, 5]))
+        if last == 'traits':
+            pool = STD_TRAITS + self.v.custom_traits
+            return (True, rng.sample(pool, rng.randint(0, min(3, len(pool)))))
+        if last == 'aggregates' or (self.route.endswith('/aggregates') and path == ()):
+            return (True, rng.sample(AGG, rng.randint(0, 3)))
+        if last == 'parent_provider_uuid':
+            return (True, rng.choice([None] + self.v.rps[:3]))
+        if last == 'allocation_ratio':
+            return (True, rng.choice([1.0, 0.5, 16.0, 0.0, 2]))
+        return None
+
+    def string(self, path, schema, rng):
+        last = path[-1] if path else None
+        if last == 'name':
+            if self.route.startswith('/resource_classes'):
+                return rng.choice(['CUSTOM_NEW%d' % self.n, 'CUSTOM_RC1', 'CUSTOM_RC2'])
+            return rng.choice(['new-rp-%d' % self.n, 'rp1', 'root'])
+        if last == 'uuid' and path[:-1] and path[-2] == 'resource_provider':
+            return self._rp(rng)
+        if last == 'uuid':
+            return rng.choice([RP[7], RP[8], self._rp(rng)])
+        if last == 'resource_class':
+            return rng.choice(STD_RCS + self.v.custom_rcs)
+        if last in ('project_id', 'user_id'):
+            return rng.choice(['p1', 'p2', 'u1'])
+        if last == 'consumer_type':
+            return rng.choice(['INSTANCE', 'MIGRATION', 'NEWTYPE'])
+        return None
+
+
+def query_value(key, view, rng):
+    rp = rng.choice(view.rps) if view.rps else UNKNOWN_UUID
+    base = re.sub(r'(_?[A-Za-z0-9_-]*)$', '', key) if False else key
+    if key.startswith('resources'):
+        return rng.choice(['VCPU:1', 'VCPU:1,MEMORY_MB:64', 'DISK_GB:10', 'VCPU:1,DISK_GB:5', 'CUSTOM_RC1:1', 'SRIOV_NET_VF:2'])
+    if key.startswith('required') or key == 'root_required':
+        return rng.choice(['HW_CPU_X86_AVX', '!HW_CPU_X86_AVX', 'CUSTOM_T1', 'in:HW_CPU_X86_AVX,CUSTOM_T1', 'CUSTOM_T1,!' + SHARE])
+    if key.startswith('member_of'):
+        return rng.choice([AGG[0], 'in:%s,%s' % (AGG[0], AGG[1]), '!' + AGG[0], '!in:%s' % AGG[1]])
+    if key.startswith('in_tree') or key == 'uuid':
+        return rp
+    if key == 'limit':
+        return rng.choice(['1', '5', '1000'])
+    if key == 'group_policy':
+        return rng.choice(['none', 'isolate'])
+    if key == 'same_subtree':
+        return rng.choice(['_1,_2', '_A', ',_1'])
+    if key == 'name':
+        return rng.choice(['rp1', 'root', 'in:CUSTOM_T1,HW_CPU_X86_AVX', 'startswith:CUSTOM'])
+    if key == 'associated':
+        return rng.choice(['true', 'false', '1'])
+    if key in ('project_id', 'user_id'):
+        return rng.choice(['p1', 'p2', 'u1'])
+    if key == 'consumer_type':
+        return rng.choice(['INSTANCE', 'all', 'unknown', 'MIGRATION'])
+    return 'x'
+
+
+def valid_query(route, method, version, view, rng):
+    sn, schema = schema_for(route, method, 'query', version)
+    if schema is None:
+        return []
+    keys = []
+    props = schema.get('properties', {})
+    for k in props:
+        if k in schema.get('required', []) or rng.random() < 0.3:
+            keys.append(k)
+    for pat in schema.get('patternProperties', {}):
+        if rng.random() < 0.45:
+            keys.append(D.sample_regex(pat, rng))
+    if route == '/allocation_candidates' and not any(k.startswith('resources') for k in keys):
+        keys.append('resources')
+    return [(k, query_value(k, view, rng)) for k in keys]
+
+
+def path_for(route, view, rng):
+    """-> (path, the uuid put into {uuid}/{consumer_uuid} if any)"""
+    pu = None
+    path = route
+
+    def sub(m):
+        nonlocal pu
+        name = m.group(1)
+        if name == 'uuid':
+            pu = rng.choice(view.rps) if view.rps and rng.random() < 0.9 else UNKNOWN_UUID
+            return pu
+        if name == 'consumer_uuid':
+            pu = rng.choice(list(view.consumers) + CONS[:3])
+            return pu
+        if name == 'resource_class':
+            pool = STD_RCS + view.custom_rcs
+            if pu in view.invs and rng.random() < 0.7:
+                pool = view.invs[pu]
+            return rng.choice(pool)
+        if name == 'name':
+            if route.startswith('/traits'):
+                return rng.choice(STD_TRAITS + view.custom_traits + ['CUSTOM_NEWT'])
+            return rng.choice(STD_RCS + view.custom_rcs + ['CUSTOM_NEWRC'])
+        return 'x'
+    path = re.sub(r'\{(\w+)\}', sub, route)
+    return path, pu
+
+
+def valid_request(route, method, version, view, rng):
+    """a request that is valid (or nearly: it may conflict with the state) for (route, method) at `version`"""
+    path, pu = path_for(route, view, rng)
+    req = {'method': method, 'path': path, 'query': valid_query(route, method, version, view, rng),
+           'headers': {'x-auth-token': 'admin', 'accept': 'application/json',
+                       'openstack-api-version': 'placement %d.%d' % version},
+           'body': None, 'doc': None, 'schema': None}
+    sn, schema = schema_for(route, method, 'body', version)
+    if schema is not None:
+        doc = D.gen_valid(schema, rng, StateHints(view, route, method, pu, rng))
+        req['doc'] = doc
+        req['schema'] = sn
+        req['body'] = D.dumps(doc).encode()
+        req['headers']['content-type'] = 'application/json'
+    elif method in ('POST', 'PUT') and rng.random() < 0.5:
+        # a body where the translator found no schema (undeclared method, version outside the window, bodiless PUT)
+        req['body'] = b'{}'
+        req['headers']['content-type'] = 'application/json'
+    return req
+
+
+# =============================================================================== stage 3: malformations
+
+CTYPES_BAD = [None, 'text/plain', 'application/xml', 'application/json; charset=utf-8', 'application/JSON', 'json',
+              'application/x-www-form-urlencoded', 'multipart/form-data; boundary=x', '', 'a/b/c', '\xe9',
+              'application/json;', 'application/json, text/plain']
+ACCEPT_JSONISH = ['application/json', 'application/json;q=0.9, text/plain;q=0.1', 'application/json, */*;q=0.1']
+ACCEPT_OTHER = [None, 'text/html', 'text/plain', 'application/xml', '*/*', 'application/*', 'garbage', ';;;', 'a/b;q=x',
+                'application/json;q=0', 'text/*;q=0.5, application/octet-stream', '\xe9/\xe9', 'application/json;version=1.0']
+VERSIONS_BAD = ['placement 9.9', 'placement 1.40', 'placement 0.9', 'placement 1', 'placement 1.x', 'placement -1.0',
+                'placement 1.0.0', 'placement', '', 'compute 1.1', 'placement latest', 'placement LATEST',
+                'placement 1.39, compute 2.1', 'compute 2.1, placement 1.10', 'placement 1.10, placement 1.20',
+                'placement 1.1e1', 'placement 1.99999999999999999999', 'placement \xe9', 'placement  1.10', ' placement 1.10 ',
+                'PLACEMENT 1.10', 'placement 1.039', 'placement +1.2', 'placement 1.-1', 'placement 1. 2', 'placement\t1.2',
+                None]
+QUERY_BAD_VALUES = ['', ' ', 'VCPU', 'VCPU:', ':1', 'VCPU:0', 'VCPU:-1', 'VCPU:abc', 'VCPU:1.5', 'VCPU:99999999999999999999',
+                    'VCPU:1,VCPU:2', 'vcpu:1', 'NOPE:1', 'VCPU:1,', ',', 'VCPU:1;DISK_GB:1', 'VCPU:1:2', 'VCPU:١',
+                    '!', 'in:', 'in:,', '!in:', 'in:!X', 'CUSTOM_NOPE', '!!HW_CPU_X86_AVX', 'HW_CPU_X86_AVX,,', ',,',
+                    'not-a-uuid', UNKNOWN_UUID, UNKNOWN_UUID + ',', 'in:not-a-uuid', '0', '-1', '1.5', '1e3', 'abc',
+                    '99999999999999999999', '2147483648', 'x' * 300, '\x00', 'é', '\U0001f4a5', '%', '%zz', '_', '_1,_1', '_nope',
+                    'none,isolate', 'ISOLATE', 'true', 'yes', 'startswith:', 'startswith', 'in', 'foo:bar', 'all', 'allx',
+                    'unknown', 'null', 'CUSTOM_X\n', ' VCPU:1', 'VCPU: 1', "' OR 1=1 --", '"']
+EXTRA_QUERY_KEYS = ['foo', 'resources', 'resources1', 'resources_A', 'required', 'required1', 'member_of', 'member_of1',
+                    'in_tree', 'in_tree1', 'limit', 'group_policy', 'root_required', 'same_subtree', 'name', 'uuid',
+                    'associated', 'project_id', 'user_id', 'consumer_type', 'resources' + 'a' * 65, 'resources-', 'resourcesé',
+                    'resources 1', '', 'RESOURCES', 'required_', 'resources1.0', 'resources01']
+PATH_SEGMENTS_BAD = ['not-a-uuid', UNKNOWN_UUID, UNKNOWN_UUID.upper(), '11111111111111111111111111111111',
+                     '{%s}' % UNKNOWN_UUID, 'CUSTOM_T%0A', 'CUSTOM_X%0A', 'VCPU%0A', 'CUSTOM_%C3%89', '%C3%A9', '%00', '%FF',
+                     'A' * 256, 'CUSTOM_' + 'A' * 249, 'CUSTOM_' + 'A' * 248, 'x' * 5000, '..', '.', '%2F', '%2e%2e', ' ',
+                     '%20', 'custom_lower', 'CUSTOM_', 'CUSTOM', 'vcpu', 'VCPU;x=1', 'a?b', 'a%3Fb', "'", '%27', '*',
+                     '-1', '0', 'null', 'CUSTOM_A.B', 'CUSTOM_A-B', '%E0%A4%A', '%ED%A0%80', '+']
+EXTRA_HEADERS = [('x-roles', 'admin'), ('x-roles', ''), ('x-user-id', 'x'), ('openstack-system-scope', 'all'),
+                 ('x-forwarded-proto', 'https'), ('forwarded', 'for=1;proto=x'), ('x-forwarded-host', '\xe9'),
+                 ('x-openstack-request-id', 'req-xyz'), ('x-openstack-request-id', 'x' * 500), ('content-encoding', 'gzip'),
+                 ('transfer-encoding', 'chunked'), ('expect', '100-continue'), ('if-match', '*'), ('range', 'bytes=0-1'),
+                 ('cookie', 'a=b'), ('origin', 'http://evil'), ('host', ''), ('x-http-method-override', 'DELETE'),
+                 ('if-modified-since', 'garbage'), ('accept-language', 'xx'), ('accept-charset', 'x'),
+                 ('x-service-token', 'x'), ('x-project-id', 'x'), ('x-domain-id', '\x00')]
+
+
+def quote(s):
+    import urllib.parse
+    return urllib.parse.quote(s, safe='')
+
+
+def encode_query(pairs):
+    out = []
+    for k, v in pairs:
+        if isinstance(v, bytes):          # raw, already percent-encoded
+            out.append('%s=%s' % (quote(k), v.decode('latin-1')))
+        else:
+            out.append('%s=%s' % (quote(k), quote(v)))
+    return '&'.join(out)
+
+
+def byte_kinds(req, rng):
+    """malformations of the body bytes"""
+    body = req['body'] if req['body'] is not None else b'{"a": 1}'
+    choice = rng.choice(['bytes:truncated', 'bytes:garbage', 'bytes:invalid-utf8', 'bytes:empty', 'bytes:nan-literal',
+                         'bytes:dup-keys', 'bytes:deep-nesting', 'bytes:bom', 'bytes:huge-number', 'bytes:surrogate',
+                         'bytes:trailing', 'bytes:utf16', 'bytes:control-chars', 'bytes:single-quotes', 'bytes:comment',
+                         'bytes:huge-body', 'bytes:null-byte', 'bytes:big-exponent'])
+    if choice == 'bytes:truncated':
+        b = body[:rng.randint(0, max(0, len(body) - 1))]
+    elif choice == 'bytes:garbage':
+        b = bytes(rng.getrandbits(8) for _ in range(rng.randint(1, 40)))
+    elif choice == 'bytes:invalid-utf8':
+        i = rng.randint(0, len(body))
+        b = body[:i] + rng.choice([b'\xff', b'\xc3', b'\xed\xa0\x80', b'\xf8\x88\x80\x80\x80']) + body[i:]
+    elif choice == 'bytes:empty':
+        b = rng.choice([b'', b' ', b'\n'])
+    elif choice == 'bytes:nan-literal':
+        b = rng.choice([b'NaN', b'Infinity', b'-Infinity', b'[NaN]', b'{"a": NaN}', body.replace(b'1', b'NaN', 1),
+                        body.replace(b'1', b'-Infinity', 1), body.replace(b'0', b'Infinity', 1)])
+    elif choice == 'bytes:dup-keys':
+        b = body.replace(b'{', b'{"total": 0, ', 1) if rng.random() < 0.5 else (
+            body[:-1] + b', ' + body[1:] if body.startswith(b'{') and len(body) > 2 else b'{"a":1,"a":2}')
+    elif choice == 'bytes:deep-nesting':
+        n = rng.choice([100, 900, 1100, 5000, 100000])
+        b = rng.choice([b'[' * n + b']' * n, b'{"a":' * n + b'1' + b'}' * n, b'[' * n])
+    elif choice == 'bytes:bom':
+        b = b'\xef\xbb\xbf' + body
+    elif choice == 'bytes:huge-number':
+        b = body.replace(b'1', b'1' + b'0' * rng.choice([30, 400, 5000]), 1)
+    elif choice == 'bytes:big-exponent':
+        b = body.replace(b'1', rng.choice([b'1e400', b'-1e400', b'1e-400', b'1E+309', b'0e999999999', b'1.0e308']), 1)
+    elif choice == 'bytes:surrogate':
+        b = body.replace(b'"', b'"\\ud800', 1) if b'"' in body else b'"\\ud800"'
+    elif choice == 'bytes:trailing':
+        b = body + rng.choice([b'x', b'{}', b',', b'\x00', b' null'])
+    elif choice == 'bytes:utf16':
+        b = body.decode('utf-8', 'replace').encode(rng.choice(['utf-16', 'utf-16-le', 'utf-32']))
+    elif choice == 'bytes:control-chars':
+        b = body.replace(b'"', b'"\x01\n', 1) if b'"' in body else b'"\x01"'
+    elif choice == 'bytes:single-quotes':
+        b = body.replace(b'"', b"'")
+    elif choice == 'bytes:comment':
+        b = b'/* c */' + body
+    elif choice == 'bytes:huge-body':
+        b = b'{"name": "' + b'A' * rng.choice([10 ** 5, 10 ** 6]) + b'"}'
+    else:
+        b = body.replace(b'"', b'"\\u0000', 1) if b'"' in body else b'"\\u0000"'
+    req['body'] = b
+    req['doc'] = None
+    req['headers'].setdefault('content-type', 'application/json')
+    return choice
+
+
+def malform(req, route, method, view, rng):
+    """apply one malformation in place; returns its kind"""
+    group = rng.choices(['body', 'bytes', 'ctype', 'accept', 'version', 'query', 'path', 'header', 'token', 'clen', 'semantic'],
+                        [30, 10, 5, 5, 8, 16, 10, 4, 1, 1, 4])[0]
+    h = req['headers']
+    if group == 'body':
+        if req['doc'] is None:
+            doc = rng.choice([{}, {'name': 'x'}, [], {'allocations': {}}])
+        else:
+            doc = req['doc']
+        doc, kind = D.mutate_doc(doc, rng)
+        req['doc'] = doc
+        req['body'] = D.dumps(doc).encode()
+        h.setdefault('content-type', 'application/json')
+        return kind
+    if group == 'bytes':
+        return byte_kinds(req, rng)
+    if group == 'ctype':
+        v = rng.choice(CTYPES_BAD)
+        if v is None:
+            h.pop('content-type', None)
+            if req['body'] is None:
+                req['body'] = b'{}'
+            return 'ctype:missing'
+        h['content-type'] = v
+        if req['body'] is None and rng.random() < 0.7:
+            req['body'] = b'{}'
+        return 'ctype:wrong'
+    if group == 'accept':
+        v = rng.choice(ACCEPT_OTHER + ACCEPT_JSONISH[1:])
+        if v is None:
+            h.pop('accept', None)
+            return 'accept:missing'
+        h['accept'] = v
+        return 'accept:jsonish' if v in ACCEPT_JSONISH else 'accept:other'
+    if group == 'version':
+        v = rng.choice(VERSIONS_BAD)
+        if v is None:
+            h.pop('openstack-api-version', None)
+            return 'version:missing'
+        h['openstack-api-version'] = v
+        if rng.random() < 0.2:
+            h['x-openstack-placement-api-version'] = rng.choice(['1.10', 'x', '9.9'])
+            return 'version:legacy-header'
+        return 'version:garbage'
+    if group == 'query':
+        q = req['query']
+        k = rng.choice(['query:repeat', 'query:unknown', 'query:bad-value', 'query:conflict', 'query:invalid-utf8',
+                        'query:long', 'query:empty-value', 'query:on-write'])
+        if k == 'query:repeat' and q:
+            key, val = rng.choice(q)
+            q.append((key, rng.choice([val, query_value(key, view, rng), rng.choice(QUERY_BAD_VALUES)])))
+        elif k == 'query:unknown':
+            q.append((rng.choice(EXTRA_QUERY_KEYS), rng.choice(QUERY_BAD_VALUES + ['VCPU:1', AGG[0]])))
+        elif k == 'query:bad-value' and q:
+            i = rng.randrange(len(q))
+            q[i] = (q[i][0], rng.choice(QUERY_BAD_VALUES))
+        elif k == 'query:conflict':
+            q += rng.sample([('resources', 'VCPU:1'), ('resources1', 'VCPU:1'), ('resources_A', 'DISK_GB:1'),
+                             ('group_policy', 'isolate'), ('required1', 'CUSTOM_T1'), ('required', '!CUSTOM_T1'),
+                             ('required', 'CUSTOM_T1'), ('member_of', AGG[0]), ('member_of', '!' + AGG[0]),
+                             ('in_tree', RP[0]), ('in_tree1', RP[3]), ('same_subtree', '_A,1'), ('limit', '0'),
+                             ('root_required', '!CUSTOM_T1,CUSTOM_T1'), ('required_A', 'in:CUSTOM_T1'),
+                             ('name', 'rp1'), ('uuid', RP[1]), ('required', 'HW_CPU_X86_AVX,!HW_CPU_X86_AVX')], rng.randint(2, 5))
+        elif k == 'query:invalid-utf8':
+            q.append((rng.choice(['name', 'resources', 'required', 'foo', 'project_id', 'member_of', 'in_tree']),
+                      rng.choice([b'%ff', b'%C3', b'%ED%A0%80', b'%00', b'%E9', b'a%', b'%u00e9', b'%0A'])))
+        elif k == 'query:long':
+            q.append((rng.choice(['name', 'required', 'resources', 'member_of']), 'A' * rng.choice([300, 5000, 70000])))
+        elif k == 'query:empty-value' and q:
+            i = rng.randrange(len(q))
+            q[i] = (q[i][0], '')
+        else:
+            q.append((rng.choice(EXTRA_QUERY_KEYS), rng.choice(QUERY_BAD_VALUES)))
+            k = 'query:on-write' if method != 'GET' else 'query:unknown'
+        return k
+    if group == 'path':
+        segs = req['path'].split('/')
+        k = rng.choice(['path:bad-segment', 'path:bad-segment', 'path:trailing-slash', 'path:double-slash',
+                        'path:unknown-route', 'path:extra-segment', 'path:case', 'path:prefix'])
+        idx = [i for i, sg in enumerate(segs) if sg and i >= 2]
+        if k == 'path:bad-segment' and idx:
+            segs[rng.choice(idx)] = rng.choice(PATH_SEGMENTS_BAD)
+            req['path'] = '/'.join(segs)
+        elif k == 'path:trailing-slash':
+            req['path'] += '/'
+        elif k == 'path:double-slash':
+            req['path'] = req['path'].replace('/', '//', 1)
+        elif k == 'path:unknown-route':
+            req['path'] = rng.choice(['/nope', '/resource_provider', '/resource_providers/%s/nope' % RP[0], '/v1/resource_providers',
+                                      '/allocations/%s/extra' % CONS[0], '/traits/', '//', '/%00', '/reshaper/x', '/usages/x',
+                                      '/allocation_candidates/1', '/resource_classes/VCPU/x', '/' + 'a' * 3000, '/\xe9', '/%C3%A9'])
+        elif k == 'path:extra-segment':
+            req['path'] += '/' + rng.choice(PATH_SEGMENTS_BAD)
+        elif k == 'path:case':
+            req['path'] = req['path'].upper() if rng.random() < 0.5 else req['path'].title()
+        else:
+            req['path'] = rng.choice(['/placement', '/placement/', '']) + req['path'] if rng.random() < 0.7 else req['path'].lstrip('/')
+        return k
+    if group == 'header':
+        k, v = rng.choice(EXTRA_HEADERS)
+        h[k] = v
+        return 'header:extra:' + k
+    if group == 'token':
+        v = rng.choice([None, '', 'user:project', 'admin:', ':', 'x' * 5000, '\xe9'])
+        if v is None:
+            h.pop('x-auth-token', None)
+            return 'token:missing'
+        h['x-auth-token'] = v
+        return 'token:other'
+    if group == 'clen':
+        h['content-length'] = rng.choice(['abc', '-1', '', '0', '99999', '1.5', ' 5', '5 ', '+5', '0x10'])
+        if rng.random() < 0.5:
+            h.pop('content-type', None)
+        return 'clen:garbage'
+    # semantic: a valid shape that conflicts with the state
+    if req['doc'] is not None and isinstance(req['doc'], dict):
+        doc = req['doc']
+        k = 'sem:none'
+        if 'resource_provider_generation' in doc:
+            doc['resource_provider_generation'] = rng.choice([doc['resource_provider_generation'] + 1, 0, 99, 2 ** 63, 2 ** 64])
+            k = 'sem:stale-generation'
+        elif 'consumer_generation' in doc:
+            doc['consumer_generation'] = rng.choice([0, 7, None, 2 ** 63])
+            k = 'sem:stale-consumer-generation'
+        elif 'name' in doc:
+            doc['name'] = rng.choice(['rp1', 'root', 'VCPU', 'CUSTOM_RC1', 'rp2'])
+            k = 'sem:duplicate-name'
+        req['body'] = D.dumps(doc).encode()
+        return k
+    return 'sem:none'
+
+
+def gen_request(view, rng, route_table):
+    """-> (req, route template, kinds, version tuple)"""
+    route = rng.choice(sorted(route_table))
+    declared = route_table[route]
+    if rng.random() < 0.88:
+        method = rng.choice(declared)
+    else:
+        method = rng.choice([m for m in ALL_METHODS if m not in declared])
+    r = rng.random()
+    version = (1, 39) if r < 0.35 else (1, rng.randint(0, 39))
+    req = valid_request(route, method, version, view, rng)
+    kinds = []
+    if method not in declared:
+        kinds.append('method:undeclared')
+    n = rng.choices([0, 1, 2, 3], [12, 62, 20, 6])[0]
+    for _ in range(n):
+        kinds.append(malform(req, route, method, view, rng))
+    if not kinds:
+        kinds = ['none']
+    if any(k in ('path:unknown-route', 'path:prefix', 'path:case', 'path:double-slash') for k in kinds):
+        route = '(unrouted)'
+    return req, route, kinds, version
+
+
+# =============================================================================== stage 3: sending and monitors
+
+REJECTED = (400, 404, 405, 406, 415)
+_captured = []
+
+
+class _CaptureLog(object):
+    """stands in for fault_wrap.LOG: remembers the exception FaultWrapper turned into a 500"""
+
+    def exception(self, msg, *args, **kw):
+        et, ev, tb = sys.exc_info()
+        site = ''
+        for fs in reversed(traceback.extract_tb(tb)):
+            fn = fs.filename.replace('\\', '/')
+            if '/placement/' in fn and '/site-packages/' not in fn:
+                site = '%s:%s' % (fn.split('/placement/', 1)[1], fs.name)
+                break
+        if not site and tb is not None:
+            fs = traceback.extract_tb(tb)[-1]
+            site = '%s:%s' % (os.path.basename(fs.filename), fs.name)
+        _captured.append((et.__name__ if et else '?', site, str(ev)[:300]))
+
+    def __getattr__(self, name):
+        return lambda *a, **k: None
+
+
+def install_capture():
+    from placement import fault_wrap
+    fault_wrap.LOG = _CaptureLog()
+
+
+def path_qs(req):
+    qs = encode_query(req['query']) if req['query'] else ''
+    return req['path'] + ('?' + qs if qs else '')
+
+
+def send(app, req):
+    """-> (status, headers(lower-case), body bytes).  Raises whatever escapes the WSGI application.
+    The WSGI environ is filled the way a server does: PATH_INFO is the percent-decoded path as latin-1
+    (raw non-ASCII characters stand for their UTF-8 bytes), QUERY_STRING is passed through undecoded."""
+    import urllib.parse
+    import webob
+    r = webob.Request.blank('/', method=req['method'])
+    raw = req['path'].encode('utf-8', 'surrogatepass')
+    r.environ['PATH_INFO'] = urllib.parse.unquote_to_bytes(raw).decode('latin-1')
+    r.environ['QUERY_STRING'] = encode_query(req['query']) if req['query'] else ''
+    if req['body'] is not None:
+        r.body = req['body']
+    hs = req['headers']
+    for k, v in hs.items():
+        if k == 'content-length':
+            continue
+        v = v.encode('utf-8').decode('latin-1')
+        if k == 'content-type':
+            r.environ['CONTENT_TYPE'] = v
+        else:
+            r.environ['HTTP_' + k.upper().replace('-', '_')] = v
+    if 'content-type' not in hs:
+        r.environ.pop('CONTENT_TYPE', None)
+    if 'content-length' in hs:
+        r.environ['CONTENT_LENGTH'] = hs['content-length']
+    resp = r.get_response(app.app)
+    return resp.status_int, {k.lower(): v for k, v in resp.headers.items()}, resp.body
+
+
+def applied_version(headers):
+    v = headers.get('openstack-api-version')
+    if not v:
+        return None
+    m = re.match(r'^placement (\d+)\.(\d+)$', v)
+    return (int(m.group(1)), int(m.group(2))) if m else None
+
+
+def check_error_body(status, headers, body):
+    """problems of a 4xx body sent to a client that accepts JSON ([] = well-formed)"""
+    out = []
+    ct = headers.get('content-type', '')
+    if not ct.startswith('application/json'):
+        return ['content-type %r' % ct]
+    try:
+        j = json.loads(body)
+    except Exception:
+        return ['body is not JSON']
+    if not (isinstance(j, dict) and isinstance(j.get('errors'), list) and j['errors'] and isinstance(j['errors'][0], dict)):
+        return ['no errors[0] object']
+    e = j['errors'][0]
+    if e.get('status') != status or isinstance(e.get('status'), bool):
+        out.append('status %r != %d' % (e.get('status'), status))
+    for k in ('title', 'detail', 'request_id'):
+        if not isinstance(e.get(k), str) or (k != 'detail' and not e.get(k)):
+            out.append('%s missing' % k)
+    av = applied_version(headers)
+    want_code = av is not None and av >= (1, 23)
+    if want_code and not (isinstance(e.get('code'), str) and e['code'].startswith('placement.')):
+        out.append('code missing at %s' % (av,))
+    if not want_code and 'code' in e:
+        out.append('code present at %s' % (av,))
+    if status == 406 and av is None:
+        if not (e.get('min_version') == '1.0' and isinstance(e.get('max_version'), str)):
+            out.append('min_version/max_version missing on 406')
+    return out
+
+
+def replay_obj(state, req, route, kinds, observed, expected):
+    body = req['body']
+    if body is not None:
+        try:
+            btxt = {'text': body.decode('utf-8')} if len(body) < 4000 else {'base64': base64.b64encode(body).decode()}
+        except UnicodeDecodeError:
+            btxt = {'base64': base64.b64encode(body).decode()}
+    else:
+        btxt = None
+    return {'type': 'request', 'module': 'harness.props.c15', 'what': 'stream', 'state': state,
+            'state_build': [list(x) for x in STATES[state]], 'route': route, 'method': req['method'],
+            'path_qs': path_qs(req), 'headers': req['headers'], 'body': btxt, 'malformations': kinds,
+            'expected': expected, 'observed': observed}
+
+
+def norm_msg(s):
+    s = re.sub(r'[0-9a-fA-F]{8}-[0-9a-fA-F]{4}-[0-9a-fA-F]{4}-[0-9a-fA-F]{4}-[0-9a-fA-F]{12}', 'UUID', s)
+    s = re.sub(r'\d+', 'N', s)
+    return s[:80]
+
+
+def _deep(n):
+    return b'[' * n + b']' * n
+
+
+_NAN_INV = b'{"resource_provider_generation": 0, "total": 4, "allocation_ratio": NaN}'
+_NINF_INV = b'{"resource_provider_generation": 0, "total": 4, "allocation_ratio": -Infinity}'
+
+# (state, method, path?query, version, body, "route template|label"): requests of the listed findings (DESIGN §9 E, F, J
+# and those this check found) and regression probes; run first by worker 0 through the same monitors.
+CORPUS = [
+    ('basic', 'PUT', '/resource_providers/%s/inventories/VCPU' % RP[1], '1.39', _NAN_INV,
+     '/resource_providers/{uuid}/inventories/{resource_class}|E-nan-ratio'),
+    ('basic', 'PUT', '/resource_providers/%s/inventories/VCPU' % RP[1], '1.39', _NINF_INV,
+     '/resource_providers/{uuid}/inventories/{resource_class}|E-neginf-ratio'),
+    ('basic', 'POST', '/resource_providers/%s/inventories' % RP[1], '1.39',
+     b'{"resource_class": "DISK_GB", "total": 4, "allocation_ratio": NaN}', '/resource_providers/{uuid}/inventories|E-nan-ratio'),
+    ('basic', 'POST', '/resource_providers/%s/inventories' % RP[1], '1.39',
+     b'{"resource_class": "DISK_GB", "total": 4, "allocation_ratio": -1e400}', '/resource_providers/{uuid}/inventories|E-neginf-ratio'),
+    ('basic', 'PUT', '/resource_providers/%s/inventories' % RP[1], '1.39',
+     b'{"resource_provider_generation": 0, "inventories": {"DISK_GB": {"total": 4, "allocation_ratio": NaN}}}',
+     '/resource_providers/{uuid}/inventories|E-nan-ratio'),
+    ('basic', 'PUT', '/resource_providers/%s/inventories' % RP[1], '1.39',
+     b'{"resource_provider_generation": 0, "inventories": {"DISK_GB": {"total": 4, "allocation_ratio": -Infinity}}}',
+     '/resource_providers/{uuid}/inventories|E-neginf-ratio'),
+    ('basic', 'PUT', '/resource_providers/%s/inventories' % RP[1], '1.39',
+     b'{"resource_provider_generation": 0, "inventories": {"vcpu": 5}}', '/resource_providers/{uuid}/inventories|F-key-int'),
+    ('basic', 'PUT', '/resource_providers/%s/inventories' % RP[1], '1.39',
+     b'{"resource_provider_generation": 0, "inventories": {"vcpu": {"total": "x"}}}',
+     '/resource_providers/{uuid}/inventories|F-key-record'),
+    ('basic', 'PUT', '/resource_providers/%s/inventories' % RP[1], '1.39',
+     b'{"resource_provider_generation": 0, "inventories": {"vcpu": "ab"}}', '/resource_providers/{uuid}/inventories|F-key-str'),
+    ('basic', 'POST', '/reshaper', '1.39',
+     ('{"inventories": {"%s": {"resource_provider_generation": 0, "inventories": {"vcpu": 5}}}, "allocations": {}}' % RP[1]).encode(),
+     '/reshaper|F-key-int'),
+    ('basic', 'POST', '/reshaper', '1.39',
+     ('{"inventories": {"%s": {"resource_provider_generation": 0, "inventories": {"VCPU": {"total": 4, "allocation_ratio": NaN}}}},'
+      ' "allocations": {}}' % RP[1]).encode(), '/reshaper|E-nan-ratio'),
+    ('empty', 'POST', '/resource_classes', '1.39', b'{"name": "CUSTOM_X\\n"}', '/resource_classes|J-trailing-newline'),
+    ('empty', 'PUT', '/traits/CUSTOM_T%0A', '1.39', None, '/traits/{name}|J-trailing-newline'),
+    ('empty', 'PUT', '/resource_classes/CUSTOM_X%0A', '1.39', None, '/resource_classes/{name}|J-trailing-newline'),
+    ('exotic', 'GET', '/allocation_candidates?resources=VCPU:1,DISK_GB:5', '1.39', None,
+     '/allocation_candidates|nested-sharing-provider'),
+    ('empty', 'GET', '/usages?project_id=p1&name=%E9', '1.39', None, '/usages|query-invalid-utf8'),
+    ('empty', 'POST', '/resource_providers', '1.39', _deep(100000), '/resource_providers|deep-nesting'),
+    ('basic', 'PUT', '/resource_providers/%s/traits' % RP[1], '1.39', _deep(1100), '/resource_providers/{uuid}/traits|deep-nesting'),
+]
+
+
+def worker(args):
+    """one process: one App, a share of the stream"""
+    (wid, seed, n_requests, state_names) = args
+    import random
+    from harness.app import App, core
+    rng = random.Random(seed)
+    app = App()
+    install_capture()
+    rt = routes()
+    res = {'tallies': {}, 'violations': [], 'samples': [], 'n': 0, 'distinct': set(), 'xdocs': [], 'aux_changed': 0}
+
+    def tally(k, s):
+        d = res['tallies'].setdefault(k, {})
+        d[s] = d.get(s, 0) + 1
+
+    def violation(kind, sig, detail, rp):
+        res['violations'].append((kind, sig, detail, rp))
+
+    state = {'broken': False}
+
+    def run_one(sname, req, route, kinds, version, cur):
+        del _captured[:]
+        res['n'] += 1
+        tally('by_route', '%s %s' % (req['method'], route))
+        for k in kinds:
+            tally('by_malformation', k.split(':')[0] + ':' + k.split(':')[1] if ':' in k else k)
+        tally('by_state', sname)
+        try:
+            status, headers, body = send(app, req)
+        except Exception as e:
+            sig = 'c15:escaped:%s %s:%s' % (req['method'], route, type(e).__name__)
+            violation('monitor', sig, 'exception escaped the WSGI application: %r' % (e,),
+                      replay_obj(sname, req, route, kinds, 'exception %s: %s' % (type(e).__name__, str(e)[:300]),
+                                 'an HTTP response'))
+            tally('by_status', 'escaped')
+            state['broken'] = True
+            return cur
+        tally('by_status', str(status))
+        key = (req['method'], route, tuple(sorted(set(kinds))), status, version if status < 400 else None)
+        res['distinct'].add(hash(key))
+        if len(res['samples']) < 3 and status >= 400 and kinds != ['none']:
+            res['samples'].append({'state': sname, 'method': req['method'], 'path_qs': path_qs(req)[:300],
+                                   'headers': req['headers'], 'body': (req['body'] or b'')[:300].decode('latin-1'),
+                                   'malformations': kinds, 'status': status, 'response': body[:300].decode('latin-1')})
+        # ---- monitor: never a 5xx
+        if status >= 500:
+            cls, site, msg = _captured[-1] if _captured else ('?', '?', body[:200].decode('latin-1'))
+            tally('error_kinds', '%d %s@%s' % (status, cls, site))
+            sig = 'c15:5xx:%s %s:%s@%s' % (req['method'], route, cls, site)
+            violation('monitor', sig, '%d: %s: %s' % (status, cls, msg),
+                      replay_obj(sname, req, route, kinds, '%d %s at %s: %s' % (status, cls, site, msg), '4xx'))
+        # ---- monitor: error body
+        acc = req['headers'].get('accept')
+        if 400 <= status < 500 and status != 401 and acc in ACCEPT_JSONISH and req['method'] != 'HEAD':
+            probs = check_error_body(status, headers, body)
+            if probs:
+                sig = 'c15:errbody:%s %s:%d:%s' % (req['method'], route, status, norm_msg(probs[0]))
+                violation('monitor', sig, '; '.join(probs),
+                          replay_obj(sname, req, route, kinds, {'status': status, 'headers': headers,
+                                                                'body': body[:600].decode('latin-1')},
+                                     'errors[0] with status/title/detail/request_id, code iff >= 1.23'))
+            else:
+                try:
+                    e0 = json.loads(body)['errors'][0]
+                    tally('error_codes', e0.get('code', '(none)'))
+                    tally('error_kinds', '%d %s' % (status, norm_msg(re.sub(r'^.*?\n\n ?', '', e0.get('detail', ''), flags=re.S))[:48]))
+                except Exception:
+                    pass
+        # ---- monitor: rejected requests change nothing
+        new = app.dump()
+        if status in REJECTED or status >= 500:
+            if core(new) != core(cur):
+                changed = sorted(k for k in core(new) if core(new)[k] != core(cur).get(k))
+                if status in REJECTED:
+                    sig = 'c15:state:%s %s:%d:%s' % (req['method'], route, status, ','.join(changed))
+                    violation('monitor', sig, 'tables changed by a request answered %d: %s' % (status, changed),
+                              replay_obj(sname, req, route, kinds, {'status': status, 'changed': changed,
+                                         'before': {k: cur[k] for k in changed}, 'after': {k: new[k] for k in changed}},
+                                         'no change'))
+                else:
+                    tally('state_changed_by_5xx', ','.join(changed))
+            elif new != cur:
+                res['aux_changed'] += 1
+        # ---- correspondence: the translator's handler -> schema map explains the answer
+        av = applied_version(headers)
+        if req['method'] in rt.get(route, []) and av is not None and req['body'] is not None \
+                and not any(k.startswith('path:') for k in kinds):
+            sn, schema = schema_for(route, req['method'], 'body', av)
+            if schema is not None:
+                parsed = None
+                try:
+                    from oslo_serialization import jsonutils
+                    parsed = ('ok', jsonutils.loads(req['body']))
+                except Exception:
+                    parsed = None
+                if parsed is not None:
+                    ok = py_verdict(sn, schema, parsed[1], None)
+                    det = ''
+                    if status == 400:
+                        try:
+                            det = json.loads(body)['errors'][0]['detail']
+                        except Exception:
+                            det = ''
+                    bad = None
+                    if (200 <= status < 300 or status == 409) and not ok:
+                        bad = 'answered %d although the body does not validate against %s' % (status, sn)
+                    elif status == 400 and 'JSON does not validate' in det and ok:
+                        bad = 'answered "JSON does not validate" although the body validates against %s' % sn
+                    tally('schema_map_checks', 'valid' if ok else 'invalid')
+                    if bad:
+                        violation('correspondence', 'schema-map:%s %s:%s' % (req['method'], route, sn), bad,
+                                  replay_obj(sname, req, route, kinds, {'status': status, 'detail': det[:300]},
+                                             'consistent with Gen.Schemas.handlerSchemas'))
+                    if len(res['xdocs']) < 400 and len(req['body']) < 5000:
+                        res['xdocs'].append((sn, req['body'], ok))
+        return new
+
+    if wid == 0:
+        # directed corpus first: the requests of every listed finding and of past failures
+        for (sname, method, pq, ver, cbody, label) in CORPUS:
+            snap = build_state(app, sname)
+            cur = app.dump()
+            path, _, q = pq.partition('?')
+            req = {'method': method, 'path': path,
+                   'query': [(k, v.encode('latin-1')) for k, _, v in (kv.partition('=') for kv in q.split('&'))] if q else [],
+                   'headers': {'x-auth-token': 'admin', 'accept': 'application/json',
+                               'openstack-api-version': 'placement %s' % ver}, 'body': cbody, 'doc': None, 'schema': None}
+            if cbody is not None:
+                req['headers']['content-type'] = 'application/json'
+            route = label.split('|')[0]
+            run_one(sname, req, route, ['corpus:' + label.split('|')[1]], tuple(int(x) for x in ver.split('.')), cur)
+            tally('corpus', label)
+    per_state = max(1, n_requests // len(state_names))
+    for sname in state_names:
+        snap = build_state(app, sname)
+        cur = app.dump()
+        since_reset = 0
+        for i in range(per_state):
+            if since_reset >= 150:
+                app.restore(snap)
+                cur = app.dump()
+                since_reset = 0
+            since_reset += 1
+            view = View(cur)
+            req, route, kinds, version = gen_request(view, rng, rt)
+            cur = run_one(sname, req, route, kinds, version, cur)
+            if state['broken']:
+                state['broken'] = False
+                app.restore(snap)
+                cur = app.dump()
+                since_reset = 0
+    res['distinct'] = list(res['distinct'])
+    return res
+
+
+# =============================================================================== run / replay
+
+def stream(chk, total, nproc=16):
+    import multiprocessing
+    names = list(STATES)
+    per = max(len(names), total // nproc)
+    jobs = [(i, chk.rng.getrandbits(48), per, names[i % len(names):] + names[:i % len(names)]) for i in range(nproc)]
+    ctx = multiprocessing.get_context('fork')
+    with ctx.Pool(nproc) as pool:
+        results = pool.map(worker, jobs, chunksize=1)
+    distinct = set()
+    xdocs = []
+    n = 0
+    aux = 0
+    for r in results:
+        n += r['n']
+        aux += r['aux_changed']
+        distinct.update(r['distinct'])
+        xdocs.extend(r['xdocs'])
+        for k, d in r['tallies'].items():
+            for sub, c in d.items():
+                chk.tally(k, sub, c)
+        for (kind, sig, detail, rp) in r['violations']:
+            chk.violation(kind, sig, detail, rp)
+        for smp in r['samples'][:1]:
+            chk.sample(smp, cap=6)
+    chk.cov['evaluations'] += n
+    chk.cov['stream_requests'] = n
+    chk.cov['stream_distinct'] = len(distinct)
+    chk._distinct.update(('s', h) for h in distinct)
+    chk.cov['aux_rows_changed_on_rejected_requests'] = aux
+    chk.cov['states'] = len(names)
+    return xdocs
+
+
+def stream_docs_through_lean(chk, xdocs):
+    """bodies taken from the stream, both validators once more"""
+    from oslo_serialization import jsonutils
+    lines, kept = [], []
+    for (sn, body, ok) in xdocs[:3000]:
+        try:
+            data = jsonutils.loads(body)
+            line = json.dumps({'s': sn, 'd': D.encode(data)})
+        except (ValueError, D.Unencodable, RecursionError):
+            continue
+        if len(line) > 60000 or line.count('[') > 400:
+            continue
+        lines.append(line)
+        kept.append((sn, body, ok))
+    if not lines:
+        return
+    answers = run_lean(lines)
+    for (sn, body, ok), ans in zip(kept, answers):
+        chk.evaluation(('xval-stream', sn, body[:300].decode('latin-1')))
+        if {'1': True, '0': False}.get(ans) != ok:
+            chk.violation('correspondence', 'validator-model:%s' % sn,
+                          'Lean validate says %s, jsonschema says %s (body taken from the request stream)' % (ans, ok),
+                          {'type': 'request', 'module': 'harness.props.c15', 'what': 'xval', 'schema': sn,
+                           'document': body.decode('latin-1'), 'lean': ans, 'python': ok})
+    chk.cov['xval_stream_documents'] = len(kept)
+
+
+def run(chk):
+    thorough = chk.tier == 'thorough'
+    ok = True
+    if not getattr(chk, 'no_lean', False):
+        ok = chk.lean_stage(META['lean_module'])
+    chk.assumptions += [
+        'jsonschema 4.x (Draft 2020-12 default) + FormatChecker + re.search implement the semantics of '
+        'Model/Schema.lean and Model/Regex.lean: cross-validated on every run (stage 2), not proved',
+        'domain exceptions raised per handler (Props/C15.lean domainRaises) were read off placement/objects by hand',
+        'no code point outside ASCII lower-cases to an ASCII hexadecimal digit (uuid format checker), checked for the installed CPython',
+        'state = harness.app.core(App.dump()): project / user / consumer-type registries and the aggregate uuid '
+        'registry are not counted (as for C04); changes of those alone are counted in aux_rows_changed_on_rejected_requests',
+    ]
+    t0 = time.time()
+    try:
+        cross_validate(chk, 600 if thorough else 60)
+    except Exception as e:
+        # the driver does not run when the Lean side is broken: the search of the implementation goes on
+        chk.notes.append('cross-validation not run: %s' % str(e)[:400])
+        if ok:
+            raise
+    chk.cov['xval_wall_s'] = round(time.time() - t0, 1)
+    t0 = time.time()
+    xdocs = stream(chk, 1000000 if thorough else 36000)
+    chk.cov['stream_wall_s'] = round(time.time() - t0, 1)
+    try:
+        stream_docs_through_lean(chk, xdocs)
+    except Exception as e:
+        chk.notes.append('stream documents not cross-validated: %s' % str(e)[:400])
+        if ok:
+            raise
+    chk.cov['exhaustive'] = False
+    chk.cov['rule'] = (
+        'stage 2: per schema of placement.schemas.* 1 valid document in 4 (type-directed) and 3 grammar mutants in 4 '
+        '(18 mutation kinds, 1-2 applied), plus exotic strings against every regex and the uuid checker; distinct = '
+        'distinct (schema, document). stage 3: route x method (declared and undeclared) x microversion 1.0-1.39 x '
+        'valid request built type-directed from the schema the handler uses at that version with values aimed at the '
+        'current state, then 0-3 malformations out of ~60 kinds (body tree, body bytes, content-type, accept, '
+        'microversion header, query, path, extra headers, token, content-length, semantic conflicts) in 4 states '
+        '(empty, basic, exotic topologies, full); distinct = distinct (method, route, set of malformation kinds, '
+        'status, version if accepted); non-trivial = all (a request without malformation is the valid baseline).')
+    return ok
+
+
+def replay(doc):
+    """./check replay <file>"""
+    rp = doc['replay']
+    import placement.util  # noqa
+    if rp.get('what', '').startswith('xval'):
+        if rp['what'] == 'xval':
+            from oslo_serialization import jsonutils
+            schema = dict(_schemas())[rp['schema']]
+            data = jsonutils.loads(rp['document'])
+            py = py_verdict(rp['schema'], schema, data, None)
+            ans = run_lean([json.dumps({'s': rp['schema'], 'd': D.encode(data)})])[0]
+        elif rp['what'] == 'xval-re':
+            import placement.schemas.common as common
+            py = re.search(vars(common)[rp['name']], rp['string']) is not None
+            ans = run_lean([json.dumps({'re': rp['name'], 't': [ord(c) for c in rp['string']]})])[0]
+        else:
+            from oslo_utils import uuidutils
+            py = bool(uuidutils.is_uuid_like(rp['string']))
+            ans = run_lean([json.dumps({'uuid': [ord(c) for c in rp['string']]})])[0]
+        print('python: %s   lean: %s' % (py, ans))
+        hit = {'1': True, '0': False}.get(ans) != py
+        print('REPRODUCED' if hit else 'not reproduced')
+        return 1 if hit else 0
+    from harness.app import App, core
+    app = App()
+    install_capture()
+    build_state(app, rp['state'])
+    body = rp.get('body')
+    if body is not None:
+        body = body['text'].encode('utf-8') if 'text' in body else base64.b64decode(body['base64'])
+    pq = rp['path_qs']
+    path, _, q = pq.partition('?')
+    req = {'method': rp['method'], 'path': path, 'query': [], 'headers': rp['headers'], 'body': body}
+    if q:
+        req['path'] = path
+        req['query'] = [(k, v.encode('latin-1')) for k, _, v in (kv.partition('=') for kv in q.split('&'))]
+        # keys are re-quoted by encode_query: undo the quoting of the recorded string first
+        import urllib.parse
+        req['query'] = [(urllib.parse.unquote(k), v) for k, v in req['query']]
+    before = app.dump()
+    try:
+        status, headers, rbody = send(app, req)
+    except Exception as e:
+        print('exception escaped: %r' % (e,))
+        print('REPRODUCED')
+        return 1
+    after = app.dump()
+    print('%s %s -> %d' % (rp['method'], pq[:200], status))
+    print(rbody[:600].decode('latin-1'))
+    hit = False
+    sig = doc.get('signature', '')
+    if sig.startswith('c15:5xx') or sig.startswith('c15:escaped'):
+        hit = status >= 500
+        if _captured:
+            print('exception: %s at %s: %s' % _captured[-1])
+    elif sig.startswith('c15:errbody'):
+        probs = check_error_body(status, headers, rbody) if 400 <= status < 500 else []
+        print('error body problems:', probs)
+        hit = bool(probs)
+    elif sig.startswith('c15:state'):
+        hit = status in REJECTED and core(before) != core(after)
+    else:
+        print('expected:', rp.get('expected'), ' recorded observation:', rp.get('observed'))
+        hit = status >= 500
+    print('REPRODUCED' if hit else 'not reproduced')
+    return 1 if hit else 0
